@@ -75,6 +75,11 @@ type FnContract struct {
 	RNames []string
 	PTypes []types.Type
 	RTypes []types.Type
+	// closure target "parent$n": the parent function, the literal's ordinal and the names of
+	// the captured variables that lead the parameter list of the clause functions
+	ClosureOf  *types.Func
+	ClosureOrd int
+	Captured   []string
 }
 
 type Engine struct {
@@ -94,6 +99,7 @@ type Engine struct {
 	hqMemo       map[*smt.Term]bool
 	defImpl      map[*smt.Term]bool
 	NoEffect     map[string]string // interface method names assumed to have no effect (stdlib.gvc: noeffect)
+	Guards       map[string]*contract.Block // channel field -> guard declaration
 	DefEqs       map[*smt.Term][2]*smt.Term // definitional equalities of revealed opaque applications
 	GhostAcc     map[*ssa.Function]bool // //gvc:ghost accessors
 	Overlay      map[string][]byte
@@ -101,6 +107,7 @@ type Engine struct {
 	strLits      map[string]*smt.Term
 	strLitList   []string
 	nextCell     int
+	cutCount     int
 	errSentinels []*smt.Term
 	globalsSeen  map[string]*smt.Term
 	headStates   map[string]*State
@@ -266,7 +273,8 @@ func (e *Engine) findPkgByName(name string) *types.Package {
 			return
 		}
 		seen[p.Path()] = true
-		if (p.Name() == name || p.Path() == name) && found == nil {
+		internal := strings.Contains("/"+p.Path()+"/", "/internal/") && !ourPkg(p.Path())
+		if (p.Name() == name || p.Path() == name) && found == nil && !internal {
 			found = p
 		}
 		for _, q := range p.Imports() {
@@ -356,6 +364,66 @@ func (e *Engine) resolveTarget(name string) (*types.Func, error) {
 	return f, nil
 }
 
+// findClosure locates the n-th function literal (source order) of the function named
+// parent and the variables of the enclosing function it captures (in order of first use).
+func (e *Engine) findClosure(name string) (parent *types.Func, ord int, lit *ast.FuncLit, info *types.Info, captured []*types.Var, err error) {
+	i := strings.LastIndex(name, "$")
+	if _, err = fmt.Sscanf(name[i+1:], "%d", &ord); err != nil || ord < 1 {
+		return nil, 0, nil, nil, nil, fmt.Errorf("malformed closure name %q", name)
+	}
+	parent, err = e.resolveTarget(name[:i])
+	if err != nil {
+		return
+	}
+	p := e.Pkgs[parent.Pkg().Path()]
+	if p == nil {
+		return nil, 0, nil, nil, nil, fmt.Errorf("no syntax for %s", name)
+	}
+	info = p.TypesInfo
+	for _, f := range p.Syntax {
+		for _, d := range f.Decls {
+			fd, ok := d.(*ast.FuncDecl)
+			if !ok || fd.Name.Pos() != parent.Pos() || fd.Body == nil {
+				continue
+			}
+			k := 0
+			ast.Inspect(fd.Body, func(nd ast.Node) bool {
+				if fl, ok := nd.(*ast.FuncLit); ok {
+					k++
+					if k == ord {
+						lit = fl
+					}
+				}
+				return true
+			})
+		}
+	}
+	if lit == nil {
+		return nil, 0, nil, nil, nil, fmt.Errorf("function %s has no function literal number %d", name[:i], ord)
+	}
+	seen := map[*types.Var]bool{}
+	ast.Inspect(lit.Body, func(nd ast.Node) bool {
+		id, ok := nd.(*ast.Ident)
+		if !ok {
+			return true
+		}
+		v, ok := info.Uses[id].(*types.Var)
+		if !ok || v.IsField() || seen[v] {
+			return true
+		}
+		if v.Pos() >= lit.Pos() && v.Pos() < lit.End() {
+			return true // declared inside the literal
+		}
+		if v.Parent() == nil || v.Parent() == v.Pkg().Scope() || v.Parent() == types.Universe {
+			return true // package-level
+		}
+		seen[v] = true
+		captured = append(captured, v)
+		return true
+	})
+	return
+}
+
 // ---------- generation of clause functions ----------
 
 type genFile struct {
@@ -391,6 +459,13 @@ func (e *Engine) generate() error {
 	for _, b := range e.Blocks {
 		if b.Kind == "noeffect" {
 			e.NoEffect[b.Name] = strings.Join(b.Notes, " ")
+			continue
+		}
+		if b.Kind == "guard" {
+			if e.Guards == nil {
+				e.Guards = map[string]*contract.Block{}
+			}
+			e.Guards[b.Name] = b
 			continue
 		}
 		fc := &FnContract{B: b, Loops: map[int]*LoopContract{}}
@@ -434,20 +509,38 @@ func (e *Engine) generate() error {
 			e.Contracts[fc.Key] = fc
 			continue
 		}
-		obj, err := e.resolveTarget(b.Name)
-		if err != nil {
-			return fmt.Errorf("%s:%d: contract target %q: %v", b.File, b.Line, b.Name, err)
+		var captured []*types.Var
+		var obj *types.Func
+		if strings.Contains(b.Name, "$") {
+			parent, ord, lit, linfo, capt, err := e.findClosure(b.Name)
+			if err != nil {
+				return fmt.Errorf("%s:%d: contract target %q: %v", b.File, b.Line, b.Name, err)
+			}
+			fc.ClosureOf, fc.ClosureOrd = parent, ord
+			fc.Key = fmt.Sprintf("%s$%d", e.objKey(parent), ord)
+			sig = linfo.TypeOf(lit).(*types.Signature)
+			info = linfo
+			captured = capt
+			obj = parent // for the home package only
+		} else {
+			var err error
+			obj, err = e.resolveTarget(b.Name)
+			if err != nil {
+				return fmt.Errorf("%s:%d: contract target %q: %v", b.File, b.Line, b.Name, err)
+			}
+			fc.Obj = obj
+			fc.Key = e.objKey(obj)
+			sig = obj.Type().(*types.Signature)
 		}
-		fc.Obj = obj
-		fc.Key = e.objKey(obj)
-		sig = obj.Type().(*types.Signature)
 		if obj.Pkg() != nil && ourPkg(obj.Pkg().Path()) && obj.Pkg().Path() != MainPkg {
 			// unexported things of wsjson / internal packages live in their own package
 			if !obj.Exported() || strings.HasSuffix(obj.Pkg().Path(), "/wsjson") {
 				home = obj.Pkg()
 			}
 		}
-		if obj.Pkg() == nil {
+		if fc.ClosureOf != nil {
+			// loops inside closures are not supported (decl stays nil)
+		} else if obj.Pkg() == nil {
 			// universe (error.Error)
 		} else if p := e.Pkgs[obj.Pkg().Path()]; p != nil {
 			info = p.TypesInfo
@@ -468,6 +561,10 @@ func (e *Engine) generate() error {
 			v    *types.Var
 		}
 		var ps, rs []pv
+		for _, cv := range captured {
+			ps = append(ps, pv{cv.Name(), cv.Type(), cv})
+			fc.Captured = append(fc.Captured, cv.Name())
+		}
 		if r := sig.Recv(); r != nil {
 			nm := r.Name()
 			if nm == "" || nm == "_" {
@@ -669,6 +766,8 @@ func (e *Engine) generate() error {
 						fmt.Fprintf(&body, "gvcModMap(%s); ", it.Expr)
 					case "chan":
 						fmt.Fprintf(&body, "gvcModChan(%s); ", it.Expr)
+					case "call":
+						fmt.Fprintf(&body, "%s; ", it.Expr)
 					}
 				}
 				fmt.Fprintf(&g.body, "%sfunc %s(%s) { %s}\n\n", hdr, c.GenName, sb.String(), body.String())
@@ -884,8 +983,12 @@ func (e *Engine) resolve() error {
 	for key, fc := range e.Contracts {
 		bind := func(cf *ClauseFn) error {
 			home := e.SPkgs[MainPkg]
-			if fc.Obj != nil && fc.Obj.Pkg() != nil && e.SPkgs[fc.Obj.Pkg().Path()] != nil {
-				if f := e.SPkgs[fc.Obj.Pkg().Path()].Func(cf.Name); f != nil {
+			ho := fc.Obj
+			if ho == nil {
+				ho = fc.ClosureOf
+			}
+			if ho != nil && ho.Pkg() != nil && e.SPkgs[ho.Pkg().Path()] != nil {
+				if f := e.SPkgs[ho.Pkg().Path()].Func(cf.Name); f != nil {
 					cf.Fn = f
 					return nil
 				}
@@ -913,6 +1016,49 @@ func (e *Engine) resolve() error {
 		for _, cf := range all {
 			if err := bind(cf); err != nil {
 				return err
+			}
+		}
+		if fc.ClosureOf != nil {
+			parent, ord, lit, linfo, capt, err := e.findClosure(fc.B.Name)
+			if err != nil {
+				return fmt.Errorf("%s:%d: %v", fc.B.File, fc.B.Line, err)
+			}
+			fc.ClosureOf = parent
+			sig := linfo.TypeOf(lit).(*types.Signature)
+			fc.PTypes, fc.RTypes = nil, nil
+			for _, cv := range capt {
+				fc.PTypes = append(fc.PTypes, cv.Type())
+			}
+			for i := 0; i < sig.Params().Len(); i++ {
+				fc.PTypes = append(fc.PTypes, sig.Params().At(i).Type())
+			}
+			for i := 0; i < sig.Results().Len(); i++ {
+				fc.RTypes = append(fc.RTypes, sig.Results().At(i).Type())
+			}
+			pf := e.Prog.FuncValue(parent)
+			if pf == nil {
+				return fmt.Errorf("%s:%d: no SSA for %s", fc.B.File, fc.B.Line, parent.Name())
+			}
+			var found *ssa.Function
+			for _, af := range pf.AnonFuncs {
+				if af.Pos() == lit.Type.Func {
+					found = af
+				}
+			}
+			if found == nil && ord-1 < len(pf.AnonFuncs) {
+				found = pf.AnonFuncs[ord-1]
+			}
+			if found == nil {
+				return fmt.Errorf("%s:%d: closure %s not found in SSA", fc.B.File, fc.B.Line, fc.B.Name)
+			}
+			fc.Fn = found
+			e.ByFn[found] = fc
+			for _, cf := range all {
+				for i := range cf.Vars {
+					if cf.Fn != nil && i < cf.Fn.Signature.Params().Len() {
+						cf.Vars[i].Type = cf.Fn.Signature.Params().At(i).Type()
+					}
+				}
 			}
 		}
 		if fc.Obj != nil {
